@@ -621,10 +621,27 @@ func (c *specCtx) callExpr(x *ast.CallExpr) (tv, error) {
 	args := x.Args
 	boolT := types.Typ[types.Bool]
 	switch name {
+	case "defined":
+		// defined(x): does the source-level name x have a value at this program
+		// point?  (lets one per-iteration clause cover latches that lie before
+		// the variable's definition)
+		if id, ok := args[0].(*ast.Ident); ok {
+			if _, ok := c.localName(id.Name); ok {
+				return tv{Term{"true", SBool}, boolT}, nil
+			}
+			if _, ok := c.params[id.Name]; ok {
+				return tv{Term{"true", SBool}, boolT}, nil
+			}
+		}
+		return tv{Term{"false", SBool}, boolT}, nil
 	case "implies__":
 		a, err := c.trBool(args[0])
 		if err != nil {
 			return tv{}, err
+		}
+		if a == "false" {
+			// the consequent may mention names that do not exist here
+			return tv{Term{"true", SBool}, boolT}, nil
 		}
 		b, err := c.trBool(args[1])
 		if err != nil {
